@@ -44,6 +44,49 @@ R2 = {
  "C20-c": ("leap-second offset cached per UTC day", "two calls on the same leap-second day, one before and one after 23:59:59"),
  "C20-d": ("symbol-number memo keyed with a 2-bit coding-rate field; CR 4/8 overlaps the header flag", "CR 4/8 with both header settings for the same payload/SF/LDRO in one process"),
 }
+R3 = {
+ "C01-e": ("CFListChannelPayload.MarshalBinary refuses the frequency code 2^24-1 (>= instead of >)", "a join-accept with a type-0 CFList holding 1677721500 Hz"),
+ "C01-f": ("RegisterProprietaryMACCommand's payload factory returns one shared object (variable captured by the closure)", "a registered proprietary CID with size > 0 decoded twice with different bytes (one frame or two)"),
+ "C02-e": ("downlink MIC: ConfFCnt no longer zeroed for LoRaWAN 1.0", "1.0 downlink with ACK set and ConfFCnt mod 2^16 != 0"),
+ "C02-f": ("ValidateUplinkDataMIC falls back to the 2-byte MICF comparison when SNwkSIntKey is all-zero", "1.1 uplink validated with an all-zero SNwkSIntKey"),
+ "C03-e": ("PHYPayload.EncryptFOpts selects the AFCntDown block only for UnconfirmedDataDown", "ConfirmedDataDown with FPort > 0 and non-empty FOpts (method path)"),
+ "C03-f": ("EncryptFRMPayload / DecryptFRMPayload test len(data)==0 before the marshal error and return nil", "an FRMPayload that cannot be serialised (MAC command with FPort absent / != 0, out-of-range command)"),
+ "C04-e": ("RejoinRequestType1Payload decoder drops the high byte of RJCount1 (shift before widening)", "rejoin type 1 with RJCount1 >= 256, decoded from bytes, then MIC validated"),
+ "C04-f": ("ValidateDownlinkJoinMIC retries with the 1.0-form MIC for join-request type frames", "an OptNeg join-accept carrying the MIC of the 1.0 form"),
+ "C05-e": ("same edit as C02-e, written independently", "1.0 downlink with ACK and non-zero ConfFCnt"),
+ "C05-f": ("same mechanism as C01-f, written independently", "registered proprietary command decoded twice"),
+ "C06-e": ("DeviceTimeAns fraction rounded to nearest without carry (uint8 wrap)", "a duration whose remainder is >= 255.5/256 s: encoded almost a second early"),
+ "C06-f": ("RXParamSetupReq decoder pads with append(data, 0) into the caller's buffer", "RXParamSetupReq followed by another command in one FOpts / FRMPayload block"),
+ "C07-e": ("NewChannelReq 2.4 GHz raster check done on the halved value", "Freq >= 2.4 GHz with Freq mod 200 == 1: silently encoded as Freq-1"),
+ "C07-f": ("pre-sized proprietary payload prototype copied shallowly: one backing array per registration", "two proprietary commands with one CID and different bytes"),
+ "C08-e": ("RejoinRequestType1Payload encoder loses the high byte of RJCount1 (missing >> 8)", "accepted 24-byte rejoin type 1 frame with counter high byte != 0"),
+ "C08-f": ("rejoin payload layout chosen by frame length instead of the type byte", "19-byte frame with type byte 1, or 24-byte frame with type byte 0/2: accepted but not re-encodable"),
+ "C09-e": ("EncryptFRMPayload block counter is a uint8 loop variable", "an FRMPayload of 4065 bytes or more: index panic"),
+ "C09-f": ("CFListChannelPayload decoder reads 4 bytes per channel (one past the end for the last one)", "direct decode from a slice whose capacity equals its length"),
+ "C10-e": ("CFListChannelMaskPayload decoder resets with [:0] instead of nil", "a used value decoded from an all-zero mask list; kept copies share the backing array"),
+ "C10-f": ("same mechanism as C01-f, written independently", "registered proprietary command decoded twice / concurrently"),
+ "C11-e": ("AES128Key.Scan treats a 32-byte []byte of hex digits as text", "Scan of exactly 32 ASCII hex digit bytes"),
+ "C11-f": ("EUI64.UnmarshalText pre-checks hex.DecodedLen and parses with ParseUint", "17 hex digits with a leading zero"),
+ "C12-e": ("IN865 RX1 table row DR7 shifted down below the RFU hole", "IN865, uplink DR7, offsets 2..5"),
+ "C12-f": ("RX1 offset validated and used as uint8", "offsets <= -251 or >= 256 whose low byte is a valid offset"),
+ "C13-e": ("IN865 RX1 table cell [4][7] = 6 (undefined data-rate)", "IN865, DR4, offset 7"),
+ "C13-f": ("GetEnabledUplinkDataRates returns the span min..max instead of the union of channel ranges", "after AddChannel(f, 7, 7): DR6 handed out although no channel supports it / it is undefined"),
+ "C14-e": ("planner tests custom-channel activity with ec%16 instead of ec", "a dynamic band grown past 16 channels, block >= 1"),
+ "C14-f": ("AU915 ChMaskCntl=7 plan skips blocks the base planner found in sync", "an identical non-empty 125 kHz block on both sides plus a differing 500 kHz block"),
+ "C15-e": ("same edit as C07-e, written independently", "ISM2400 frequency with remainder 1 modulo 200 through NewChannelReq"),
+ "C15-f": ("GetUplinkChannelIndex stops at the first frequency match of the other kind (default / custom)", "AddChannel of a frequency equal to a default channel's, then lookup of the custom one"),
+ "C16-e": ("CFListChannelMaskPayload.MarshalBinary refuses six masks (>= 6)", "a mask CFList with a non-zero sixth mask (CN470) in a join-request to the join-server"),
+ "C16-f": ("CFList presence tested with != nil instead of len != 0", "a request that spells the absent CFList as \"CFList\":\"\""),
+ "C17-e": ("NewKeyEnvelope wraps whenever a KEK is given, also without label", "empty label with a non-empty KEK"),
+ "C17-f": ("HEXBytes.UnmarshalText returns early on empty text without resetting the receiver", "an empty hex string decoded into a receiver that already holds bytes"),
+ "C18-e": ("McGroupStatusAns encoder refuses four items (>= 4)", "all four AnsGroupMask bits set with four items"),
+ "C18-f": ("DataFragmentPayload.Size uses cap() instead of len()", "a payload that is a window into a larger buffer"),
+ "C19-e": ("matrixLine starts its PRBS register at 1<<8 instead of 1<<16", "more than 256 fragments"),
+ "C19-f": ("Encode skips rows a buggy isZero (XOR fold of 8-byte words) takes for zero", "rows whose 8-byte words cancel (0xFF fill, repeated 8-byte records) with fragment sizes that are multiples of 16"),
+ "C20-e": ("TimeSinceGPSEpoch fast path on Year() in the value's own Location", "an instant in the last hours of 2016 UTC held in a zone east of UTC"),
+ "C20-f": ("GPS->UTC uses a lazily built package-level table without synchronisation", "the first conversions of a process running concurrently"),
+}
+R2.update(R3)
 res = {}
 p = os.path.join(V, "RESULTS.tsv")
 if os.path.exists(p):
@@ -63,7 +106,7 @@ for seed, (change, needs) in R2.items():
     if not os.path.isdir(d):
         continue
     meta = {"property": seed.split("-")[0], "change": change, "needs_to_manifest": needs,
-            "written_by": "independent sub-agent (second round: asked for changes that need history, aliasing, interleavings or rare values) given only the property text and a scratch worktree of /repo",
+            "written_by": ("independent sub-agent (third round: one small value-level change in a rarely exercised corner, one free choice) given only the property text and a scratch worktree of /repo" if seed[-1] in "ef" else "independent sub-agent (second round: asked for changes that need history, aliasing, interleavings or rare values) given only the property text and a scratch worktree of /repo"),
             "confirmed": {"applies_to": "/repo HEAD at the time of collection", "suite": "bin/baseline.sh with the patch applied: 235/235 stable tests pass",
                           "demo": "bin/confirm_seed.sh %s: demo_test.go fails with the patch and passes without" % seed},
             "caught_by": caught(seed)}
